@@ -37,7 +37,7 @@ def nontrivial(sc, obs):
     if not obs['stamps']:
         return False
     inside = any(0 < e['t'] <= obs['stamps'][-1] for e in sc['events'])
-    rejected = any(v[0] in 'fn' for v in obs['verdicts'])
+    rejected = any(v[0] in 'fng' for v in obs['verdicts'])
     return inside or rejected or len(sc['tfs']) > 1
 
 
@@ -67,7 +67,7 @@ def check_scenarios(ctx, scenarios, oracle=T.oracle_c06, stream='tds-loop'):
         ctx.count('segments:%d' % len(sc['tfs']))
         ctx.count('events:%d' % len(sc['events']))
         ctx.count('steps_accepted', len(obs['stamps']))
-        ctx.count('steps_rejected', sum(1 for v in obs['verdicts'] if v[0] in 'fn'))
+        ctx.count('steps_rejected', sum(1 for v in obs['verdicts'] if v[0] in 'fng'))
         ctx.count('switch_actions', len(obs['events']))
         ctx.count('busted' if obs['segs'][-1]['busted'] else ('success' if obs['segs'][-1]['ok'] else 'stopped_short'))
         if impl != model:
